@@ -223,9 +223,10 @@ void Driver::DriverImpl::AsyncWantSend(SOCKET fd)
 {
   PauseGuard lock(*this);
 
-  auto itPfd = std::find_if(begin(pfds), end(pfds), FdEqual{fd});
-  assert(itPfd != end(pfds));
-  itPfd->events |= POLLOUT;
+  // may have already been unregistered after the peer disconnected
+  if(auto itPfd = std::find_if(begin(pfds), end(pfds), FdEqual{fd}); itPfd != end(pfds)) {
+    itPfd->events |= POLLOUT;
+  }
 }
 
 void Driver::DriverImpl::Bump()
